@@ -77,8 +77,9 @@ inductive DCon (K : Type) where
   | R (C : Constr K) (sel : Sel K)
   /-- `ctype == 'E'` (one piece, `eq`: sense `==`) or `ExpPWConstr` (`eq = false`):
   `E(max_l piece_l) <= 0` row by row; of every piece the `kind` (`DecRoConstr`: `raffine is not None`) and
-  the `rows` are read; `a`: own ambiguity set (`none`: the default one) -/
-  | E (ps : List (Constr K)) (eq : Bool) (a : Option ℕ)
+  the `rows` are read; `a`: own ambiguity set (`none`: the default one); `pat l i d`: vt column `d` occurs
+  (structurally: `np.unique(raffine.linear[row_ind].indices)`) in a random coefficient of row `i` of piece `l` -/
+  | E (ps : List (Constr K)) (eq : Bool) (a : Option ℕ) (pat : ℕ → ℕ → ℕ → Bool)
 
 /-- what `dro.Model.do_math` reads -/
 structure DroDesc (K : Type) where
@@ -95,7 +96,7 @@ structure DroDesc (K : Type) where
 /-- `dec_vars[0] >= obj * sign` for an objective that is one (bi-)affine expression (`DecVar`, `DecAffine`,
 `DecRoAffine`; `ctype` `'R'` or `'E'`): `sign*obj - t <= 0`, `t` = vt column 0; no own set -/
 def objCon (sign : K) (isE : Bool) (kind : Kind) (rows : RoRows K) (rst : ℕ → Bool) : DCon K :=
-  if isE then .E [{ kind := kind, eq := false, rows := rows.epi sign, rst := rst }] false none
+  if isE then .E [{ kind := kind, eq := false, rows := rows.epi sign, rst := rst }] false none (fun _ _ d => rst d)
   else .R { kind := kind, eq := false, rows := rows.epi sign, rst := rst } .dflt
 
 namespace DroDesc
@@ -176,6 +177,17 @@ def eRowsOf (ps : List (Constr K)) : ℕ := (ps.headD Constr.zero).rows.m
 /-- `ambset = constr.ambset if constr.ambset else self.obj_ambiguity` -/
 def eAmb (D : DroDesc K) (a : Option ℕ) : Option ℕ := match a with | some a => some a | none => D.dflt
 
+/-- the check of `dro_to_roc` (inside the loops over the rows `i`, the scenarios and the pieces): under `RoAffine`
+rules, a decision column that occurs in a random coefficient of row `i` of a `DecRoConstr` piece has a dependency
+declared (`drule.raffine[dec_ind]` has stored entries) → `SyntaxError('Incorrect affine expressions.')` (random ×
+adaptive product).  The rules' dependency pattern is the same in every scenario, so the check fails in scenario 0 of
+the first offending row or in none; the negated half of an equality has the pattern of the left half.
+(`num_scen ≥ 1`.) -/
+def rejectsE (r : Rule) (nrand : ℕ) (ps : List (Constr K)) (pat : ℕ → ℕ → ℕ → Bool) (m : ℕ) : Bool :=
+  r.isRo nrand && (List.range m).any fun i => (List.range ps.length).any fun l =>
+    ((ps.getD l Constr.zero).kind == .ro) && (List.range r.nv).any fun d =>
+      pat l i d && (List.range nrand).any fun j => r.mask d j
+
 /-- `ro_to_roc(constr)` / `dro_to_roc(constr)` when `rc_model` has `cur` columns: the items and the new
 number of columns; `error`: the exception raised -/
 def conItems (D : DroDesc K) (cur : ℕ) : DCon K → Except String (List (DItem K) × ℕ)
@@ -183,10 +195,11 @@ def conItems (D : DroDesc K) (cur : ℕ) : DCon K → Except String (List (DItem
       match roToRoc C D.rule D.S (D.selAmb sel) (fun _ _ => cur) with
       | .error e => .error e.msg
       | .ok its => .ok (its.map (ofItem (D.selPz sel)), cur)
-  | .E ps eq a =>
+  | .E ps eq a pat =>
       match eAmb D a with
       | none => .error "ValueError: The ambiguity set is undefined."
       | some ai =>
+          if rejectsE D.rule D.nrand ps pat (eRowsOf ps) then .error Err.affine.msg else
           -- `dro_to_roc(left) + dro_to_roc(right)` for an equality: run `k = h·m + i`, half `h`, row `i`
           .ok ((List.range ((if eq then 2 else 1) * eRowsOf ps)).flatMap (fun k =>
                   eRow D (D.amb ai) ps (decide (eRowsOf ps ≤ k)) (cur + k * eW D (D.amb ai)) (k % eRowsOf ps)),
